@@ -27,7 +27,7 @@ RULE = ("case = valid array of kind {1-D, N-D, first axis 0, ragged (corruption 
 ASSUMPTIONS = ["bool entries in shape, an empty shape list and unparsable-but-string darrversion values are not claimed to be invalid",
                "a numtype swap to a type of the same item size yields a valid, consistent description and is not generated as a must-raise case"]
 EXHAUSTIVE = "single-corruption matrix x 5 array kinds"
-KINDS = ['1d', 'nd', 'empty', 'ragged-values', 'ragged-indices', 'zerotail']
+KINDS = ['1d', 'nd', 'empty', 'ragged-values', 'ragged-indices', 'zerotail', 'onebyte', 'ragged-onebyte-values']
 MUST_HIT = ['form:Path'] + ['kind:' + k for k in KINDS] + ['corr:file', 'corr:key-removed', 'corr:key-retyped', 'corr:token', 'corr:shape', 'corr:size',
                                             'corr:itemsize-swap', 'corr:samelen', 'damage-keeps-timestamps', 'damaged-while-held-open', 'fuzz:opened-consistent', 'fuzz:rejected', 'bypath:delete', 'bypath:truncate']
 
@@ -77,6 +77,12 @@ def make_valid(kind, d):
     if kind == 'zerotail':       # three rows without elements: an empty data file described by a shape whose FIRST axis is not 0
         darr.asarray(p, np.zeros((3, 0, 2), dtype='int32'), chunklen=1)
         return p, p, False
+    if kind == 'onebyte':         # one-byte elements: the byte order is meaningless for the data, not for the validity of the description
+        darr.asarray(p, (np.arange(6, dtype='int8') - 3).reshape(3, 2))
+        return p, p, False
+    if kind == 'ragged-onebyte-values':
+        darr.asraggedarray(p, [[1, 2, 3], [4], [], [5, 6]], dtype='uint8', indextype='uint8')
+        return p, os.path.join(p, 'values'), True
     darr.asraggedarray(p, [[1, 2, 3], [4], [], [5, 6]], dtype='int16')
     return p, os.path.join(p, 'values' if kind == 'ragged-values' else 'indices'), True
 
